@@ -1,3 +1,169 @@
+//! Iterator family (C20): `collect()` of the two public interpretation iterators.
+//!
+//! `it2 <handles>` / `it3 <handles>` (space separated, possibly none)
+//! `= [v1]|[v2]|…`   every yielded vector, in order (compared with the Lean odometer model)
+//! `~ count=<n> nodup=<0|1> complete=<0|1> first=<vector or ->`
+//!                   the property evaluated on the implementation's output: number of vectors,
+//!                   no duplicates, exactly 2^k (3^k) vectors each of which is a completion
+//!                   (refinement) of the input; the first vector for the three-valued iterator.
 use crate::{rng::Rng, Out};
-pub fn gen(_r: &mut Rng, _cases: usize, _size: usize,  _out: &mut Out) {}
-pub fn exec(_ws: &[&str], _l: &str, _out: &mut Out) -> bool { false }
+use adf_bdd::datatypes::adf::{ThreeValuedInterpretationsIterator, TwoValuedInterpretationsIterator};
+use adf_bdd::datatypes::Term;
+use std::panic::{catch_unwind, AssertUnwindSafe};
+
+const MAX_UNDECIDED: usize = 6;
+
+fn emit_case(n: usize, v: &[usize], out: &mut Out) {
+    let s = v.iter().map(|x| x.to_string()).collect::<Vec<_>>().join(" ");
+    out.line(&format!("case iter-{n}"));
+    out.line(format!("it2 {s}").trim_end());
+    out.line(format!("it3 {s}").trim_end());
+}
+
+/// `size` < 100: random vectors of length 0..=size (0 → 10), at most 6 undecided entries;
+/// `size` = 100+L: every decided/undecided pattern of every length 0..=L (cases ignored).
+pub fn gen(r: &mut Rng, cases: usize, size: usize, out: &mut Out) {
+    if size >= 100 {
+        let maxlen = (size - 100).min(MAX_UNDECIDED);
+        let mut n = 0;
+        for len in 0..=maxlen {
+            for code in 0..3usize.pow(len as u32) {
+                let mut c = code;
+                let mut v = Vec::with_capacity(len);
+                for pos in 0..len {
+                    v.push(match c % 3 {
+                        0 => 0,
+                        1 => 1,
+                        _ => 2 + 3 * pos, // distinct residual handles
+                    });
+                    c /= 3;
+                }
+                emit_case(n, &v, out);
+                n += 1;
+            }
+        }
+        return;
+    }
+    let maxlen = if size == 0 { 10 } else { size };
+    for case in 0..cases {
+        let len = r.range(0, maxlen);
+        // probability of an undecided entry varies per case, so that all-decided, all-undecided
+        // and undecided-at-both-ends patterns occur
+        let p = r.below(5);
+        let mut v: Vec<usize> = Vec::with_capacity(len);
+        let mut und = 0;
+        for _ in 0..len {
+            let want_und = match p {
+                0 => false,
+                4 => true,
+                _ => r.chance(p, 4),
+            };
+            if want_und && und < MAX_UNDECIDED {
+                und += 1;
+                // residual handles: small, repeated, and large ones
+                v.push(match r.below(4) {
+                    0 => 2,
+                    1 => 3,
+                    2 => r.range(2, 40),
+                    _ => r.range(1000, 100000),
+                });
+            } else {
+                v.push(r.usize(2));
+            }
+        }
+        // force the ends to be undecided now and then
+        if len > 0 && r.chance(1, 4) && und < MAX_UNDECIDED && v[0] < 2 {
+            v[0] = 2 + r.usize(9);
+            und += 1;
+        }
+        if len > 1 && r.chance(1, 4) && und < MAX_UNDECIDED && v[len - 1] < 2 {
+            v[len - 1] = 2 + r.usize(9);
+        }
+        emit_case(case, &v, out);
+    }
+}
+
+fn show(v: &[Term]) -> String {
+    format!("[{}]", v.iter().map(|t| t.value().to_string()).collect::<Vec<_>>().join(","))
+}
+
+fn show_all(vs: &[Vec<Term>]) -> String {
+    if vs.is_empty() {
+        "none".to_string()
+    } else {
+        vs.iter().map(|v| show(v)).collect::<Vec<_>>().join("|")
+    }
+}
+
+fn is_completion(w: &[Term], v: &[Term]) -> bool {
+    w.len() == v.len()
+        && w.iter().zip(v.iter()).all(|(a, b)| if b.is_truth_value() { a == b } else { a.is_truth_value() })
+}
+
+fn is_refinement(w: &[Term], v: &[Term]) -> bool {
+    w.len() == v.len()
+        && w.iter().zip(v.iter()).all(|(a, b)| if b.is_truth_value() { a == b } else { a == b || a.is_truth_value() })
+}
+
+fn spec_line(outv: &[Vec<Term>], expected: u128, ok: impl Fn(&[Term]) -> bool, first: bool) -> String {
+    let mut sorted: Vec<&Vec<Term>> = outv.iter().collect();
+    sorted.sort();
+    let nodup = sorted.windows(2).all(|w| w[0] != w[1]);
+    let complete = outv.len() as u128 == expected && outv.iter().all(|w| ok(w));
+    format!(
+        "count={} nodup={} complete={} first={}",
+        outv.len(),
+        nodup as u8,
+        complete as u8,
+        if first { outv.first().map(|v| show(v)).unwrap_or_else(|| "none".to_string()) } else { "-".to_string() }
+    )
+}
+
+pub fn exec(ws: &[&str], l: &str, out: &mut Out) -> bool {
+    let three = match ws[0] {
+        "it2" => false,
+        "it3" => true,
+        _ => return false,
+    };
+    out.line(l);
+    out.flush();
+    let parsed: Option<Vec<Term>> = ws[1..].iter().map(|s| s.parse::<usize>().ok().map(Term)).collect();
+    let Some(v) = parsed else {
+        out.line("= bad-request");
+        out.line("~ bad-request");
+        return true;
+    };
+    let k = v.iter().filter(|t| !t.is_truth_value()).count() as u32;
+    // a runaway iterator must not exhaust memory: one element more than any correct answer has
+    let cap = 3usize.pow(k.min(12)) + 1;
+    let res = catch_unwind(AssertUnwindSafe(|| -> Vec<Vec<Term>> {
+        if three {
+            ThreeValuedInterpretationsIterator::new(&v).take(cap).collect()
+        } else {
+            TwoValuedInterpretationsIterator::new(&v).take(cap).collect()
+        }
+    }));
+    match res {
+        Ok(outv) => {
+            out.line(&format!("= {}", show_all(&outv)));
+            let line = if three {
+                spec_line(&outv, 3u128.pow(k), |w| is_refinement(w, &v), true)
+            } else {
+                spec_line(&outv, 2u128.pow(k), |w| is_completion(w, &v), false)
+            };
+            out.line(&format!("~ {line}"));
+            out.line(&format!(
+                "# case iter kind={} len={} undecided={} yielded={}",
+                ws[0],
+                v.len(),
+                k,
+                outv.len()
+            ));
+        }
+        Err(_) => {
+            out.line("= panic");
+            out.line("~ panic");
+        }
+    }
+    true
+}
